@@ -237,6 +237,10 @@ func (x *vc) backEdges(fr *frame, st *state, b *ssa.BasicBlock) {
 				if !made {
 					cg = "false"
 				}
+				if lc.when != nil {
+					wenv := x.contractEnv(fr, est, nil)
+					cg = implies(x.evalBool(wenv, lc.when.expr), cg)
+				}
 				x.oblige(est, "loop-calls", fmt.Sprintf("loop%d.%s.%s", li.ordinal, mangle(lc.call), lc.tag), cg, x.p.pos(b.Instrs[len(b.Instrs)-1].Pos()), "every iteration of loop "+fmt.Sprint(li.ordinal)+" that continues has executed the call "+lc.call, false)
 				lc.seen = true
 			}
